@@ -402,6 +402,11 @@ static struct tun_user pre[NU];
 static struct tun_user vs_users[NU];	/* the slot table: its own object (pointer writes cost in proportion to the enclosing object) */
 static struct query preq;
 
+/* tunnel_dns() hands only these query types to handle_null_request() */
+static int vs_tunnel_type(unsigned short t)
+{
+	return t == T_NULL || t == T_PRIVATE || t == T_CNAME || t == T_A || t == T_MX || t == T_SRV || t == T_TXT;
+}
 static int vs_slot_of(const struct query *q)
 {
 	int i;
@@ -694,6 +699,7 @@ void harness(void)
 		VASSUME(q.name[NL] == 0);
 		VHINT_EQ(q.fromlen, AFLEN);
 		VASSUME(q.id2 == 0);		/* dns_decode() clears it (dns.c) */
+		VASSUME(vs_tunnel_type(q.type));	/* tunnel_dns() dispatches only these types here */
 		len = (int) strlen(q.name);
 		VASSUME(domain_len >= 0 && domain_len <= len);
 		VASSUME(domain_len == 0 || q.name[domain_len - 1] == '.');	/* query_datalen() contract (C17) */
@@ -718,7 +724,7 @@ void harness(void)
 		static struct tun_user mid[NU];
 		int domain_len = IN.domain_len, len, a = ACT, k, n1, tun1, sc1, first = -1, second = -1;
 		q = IN.q;
-		VASSUME(q.name[NL] == 0 && q.id2 == 0 && q.id != 0);
+		VASSUME(q.name[NL] == 0 && q.id2 == 0 && q.id != 0 && vs_tunnel_type(q.type));
 		VHINT_EQ(q.fromlen, AFLEN);
 		len = (int) strlen(q.name);
 		VASSUME(domain_len >= 6 && domain_len <= len && q.name[domain_len - 1] == '.');
@@ -774,6 +780,13 @@ void harness(void)
 					"the repeat's answer carries the same payload as the original answer");
 				VREACH("repeat answered from cache");
 			}
+		}
+		if (first >= 0) {
+			/* the original was answered in step 1, so it is in the answer cache and/or the query memory: the repeat must be
+			 * recognised there (cached payload or the "x" refusal) and not be processed as a new query */
+			VASSERT(vs_sc_calls == sc1, "a repeat of an answered query releases no held query (it is not processed as new)");
+			VASSERT(same_held(&mid[a], &users[a]), "a repeat of an answered query is not stored as the session's pending query");
+			VREACH("repeat of an answered query");
 		}
 		if (first < 0) VREACH("original still pending when the repeat arrives");
 	}
@@ -1047,7 +1060,9 @@ void harness(void)
 				VASSERT(vs_nsent == 1 && vs_sent[0].len == RAW_HDR_LEN + 16 && vs_sent[0].data[RAW_HDR_LEN + (IN.kf & 15)] == (unsigned char) IN.hash[1][IN.kf & 15],
 					"one raw login reply with that digest");
 				VASSERT(users[i].conn == CONN_RAW_UDP, "session switched to raw mode");
+#if ACT_VALID
 				VREACH("raw login accepted");
+#endif
 			} else
 #endif
 			VASSERT(pre[i].authenticated_raw || !users[i].authenticated_raw, "raw flag rises only through a correct raw login for the named slot");
@@ -1072,7 +1087,9 @@ void harness(void)
 				VASSERT(vs_tunwrites == 0 && vs_nsent == 0, "and causes no tun write and no reply");
 				VREACH("raw frame refused");
 			} else {
+#if ACT_VALID
 				if (vs_tunwrites > 0 || vs_nsent > 0) VREACH("raw frame served");
+#endif
 				VASSERT(same_settings(&pre[a], &users[a]), "raw data/ping change no session setting");
 			}
 		}
